@@ -39,6 +39,9 @@ type Prog struct {
 	AllFns  map[*ssa.Function]bool
 	LibFns  []*ssa.Function // every function (incl. anonymous) whose package is Lib, sorted
 	CLIFns  []*ssa.Function
+	// Wrappers: synthetic method-value / interface wrappers around functions of Lib or CLI
+	Wrappers  []*ssa.Function
+	isWrapper map[*ssa.Function]bool
 	byName  map[string]*ssa.Function
 	Tags    string
 	NumPkgs int
@@ -115,7 +118,7 @@ func Load(repo string, tags string, env []string) (*Prog, error) {
 			}
 		}
 		if fn.Synthetic != "" && fn.Synthetic != "package initializer" {
-			continue // wrappers, bound-method thunks: no source of their own
+			continue // wrappers, bound-method thunks: no source of their own (see Wrappers below)
 		}
 		pk := fnPkg(fn)
 		switch pk {
@@ -125,11 +128,47 @@ func Load(repo string, tags string, env []string) (*Prog, error) {
 			p.CLIFns = append(p.CLIFns, fn)
 		}
 	}
+	// method-value and interface wrappers (s.WriteToSRT used as a func value): synthetic functions
+	// without a package whose body calls a function of the library or the CLI. They get effect
+	// summaries of their own so that a call through a method value is not an unknown callee.
+	inScopeFn := map[*ssa.Function]bool{}
+	for _, fn := range p.LibFns {
+		inScopeFn[fn] = true
+	}
+	for _, fn := range p.CLIFns {
+		inScopeFn[fn] = true
+	}
+	for fn := range p.AllFns {
+		if fn.Synthetic == "" || fn.Synthetic == "package initializer" || fn.Blocks == nil || inScopeFn[fn] {
+			continue
+		}
+		if fn.Pkg != nil && fn.Pkg != p.LibSSA && fn.Pkg != p.CLISSA {
+			continue
+		}
+		target := false
+		for _, b := range fn.Blocks {
+			for _, ins := range b.Instrs {
+				if c, ok := ins.(ssa.CallInstruction); ok {
+					if sc := c.Common().StaticCallee(); sc != nil && inScopeFn[sc] {
+						target = true
+					}
+				}
+			}
+		}
+		if target {
+			p.Wrappers = append(p.Wrappers, fn)
+		}
+	}
 	less := func(s []*ssa.Function) func(i, j int) bool {
 		return func(i, j int) bool { return s[i].String() < s[j].String() }
 	}
 	sort.Slice(p.LibFns, less(p.LibFns))
 	sort.Slice(p.CLIFns, less(p.CLIFns))
+	sort.Slice(p.Wrappers, less(p.Wrappers))
+	p.isWrapper = map[*ssa.Function]bool{}
+	for _, fn := range p.Wrappers {
+		p.isWrapper[fn] = true
+	}
 	for _, fn := range append(append([]*ssa.Function{}, p.LibFns...), p.CLIFns...) {
 		p.byName[FnName(fn)] = fn
 	}
